@@ -177,9 +177,14 @@ def SLOPE(*yx):
     if len(yx) % 2 != 0:
         return error.DIV_ZERO
 
-    midpoint = len(yx) // 2
-    ys = yx[:midpoint]
-    xs = yx[midpoint:]
+    if len(yx) == 2 and isinstance(yx[0], list) and isinstance(yx[1], list):
+        # SLOPE(known_ys, known_xs) with two arrays
+        ys = utils.flatten(yx[0])
+        xs = utils.flatten(yx[1])
+    else:
+        midpoint = len(yx) // 2
+        ys = yx[:midpoint]
+        xs = yx[midpoint:]
 
     if len(ys) != len(xs) or len(ys) == 0 or len(xs) == 0:
         return error.DIV_ZERO
